@@ -278,7 +278,17 @@ func dynamicIntrinsic(fr *frame, fn *ssa.Function, name string, args []value) (v
 func init() {
 	for k, v := range map[string]externalFn{
 		"bytes.Equal":                    extBytesEqual,
-		"os.Exit":                        func(fr *frame, args []value) value { panic(exitPanic(asInt64(args[0]))) },
+		"os.Exit": func(fr *frame, args []value) value {
+			// the site of an exit is the chain below the logger
+			f := fr.caller
+			for f != nil && strings.Contains(f.fn.String(), "/log.Logger") {
+				f = f.caller
+			}
+			if f != nil {
+				fr.i.x.panicSite = f.where()
+			}
+			panic(exitPanic(asInt64(args[0])))
+		},
 		"os.Getenv":                      extGetenv,
 		"os.LookupEnv":                   func(fr *frame, args []value) value { fr.i.x.stub("os.LookupEnv"); return tuple{"", false} },
 		"runtime.GC":                     extNop,
